@@ -141,7 +141,9 @@ let f _id vs =
                        List.concat_map (fun res -> List.length res :: List.map subj_code res) lf.lf_results);
              (* the result limit counts distinct keys of foundUsersUnique (NoRelationship ones included) *)
              let ks = if limit > 0 then List.map int_of_nat (list_users_nkeys m cs store ftype frel (nat_of_int (as_int depth)) (edges = 0) o rel) else [] in
-             if limit > 0 then dump_add (List.length ks :: ks);
+             (* every key a cut-short traversal can deliver (Query/ListUsers.v list_users_may) *)
+             let may = if limit > 0 then list_users_may m cs store ftype frel (nat_of_int (as_int depth)) (edges = 0) o rel else [] in
+             if limit > 0 then dump_add ((List.length ks :: ks) @ (List.length may :: List.map subj_code may));
              dump_add [lerr_mask errs; lerr_mask amb; trig_mask lf.lf_trig; (if strat then 1 else 0)];
              let kmax = List.fold_left Stdlib.max 0 ks and kmin = List.fold_left Stdlib.min Stdlib.max_int ks in
              let lim_free = limit = 0 || limit > kmax in       (* the limit cannot apply: as without limit *)
@@ -157,7 +159,16 @@ let f _id vs =
                    let ok = mode = 1 || (if errs <> [] then List.mem c errs || List.mem c amb else List.mem c amb) in
                    if not ok then diff (Printf.sprintf "impl=%s %s" (out_s outcome) model_s); ok
                  | None ->
-                   if lim_free then begin
+                   if limit > 0 && mode <> 1 && errs <> [] then begin
+                     (* the traversal fails, but the collector may reach the limit first and return what
+                        it has received by then (finding limit_drops_error).  Which entries the cancelled
+                        sibling branches still delivered is arbitrary, so the model's outcome here is any
+                        set of at most `limit` keys of the cut-short traversal; the limit must be
+                        reachable at all *)
+                     let ok = List.length users <= limit && limit <= List.length may
+                              && List.for_all (fun u -> List.mem u may) users in
+                     if not ok then diff (Printf.sprintf "impl=%s (limit %d, traversal fails, reachable keys %s) %s" (set_s users) limit (set_s may) model_s); ok
+                   end else if lim_free then begin
                      let ok = errs = [] && List.exists (same_set users) lf.lf_results in
                      if not ok then begin
                        diff (Printf.sprintf "impl=%s %s" (set_s users) model_s);
@@ -233,7 +244,7 @@ let f _id vs =
                       | Some (Some fl, why) -> knowns := (fl ^ " " ^ where ^ " re-check of " ^ subj_s u ^ ": " ^ why) :: !knowns
                       | Some (None, why) -> props := (where ^ " re-check of " ^ subj_s u ^ ": " ^ why) :: !props)
                    end) users;
-                 if lim_free || (lim_exact && errs = []) then
+                 if errs = [] && (lim_free || lim_exact) then
                    List.iter (fun subj ->
                      if Hashtbl.mem chk (subj, o, rel) && not (List.mem subj users) then begin
                        let cand = (match subj with
